@@ -260,6 +260,7 @@ struct C02 : Property {
     }
     // hostile stream at the server
     int sfd = -1;
+    int stream_canary = 0;      // 1 = TCP, 2 = WebSocket: the stream is entirely well-formed and ends with GET /canary
     Bytes stream;
     if (stream_kind) {
       Rng r(plan.value("sched_salt", 1ull) ^ 0x77);
@@ -271,7 +272,12 @@ struct C02 : Property {
       for (int i = 0; i < 6; i++) {
         r1::Msg m;
         if (i == 0) { m.code = 0xE1; m.opts.push_back({2, r1::encode_uint(70000)}); }
-        else {
+        else if (r.chance(0.3)) {
+          // unusual but legal signalling: Ping / Pong with or without token, i.e. messages of two bytes (Len 0, TKL 0), Ping with Custody
+          m.code = r.chance(0.7) ? 0xE2 : 0xE3;
+          if (r.chance(0.5)) m.token = r.bytes((size_t)r.range(1, 8));
+          if (m.code == 0xE2 && r.chance(0.2)) m.opts.push_back({2, {}});
+        } else {
           m.code = (int)r.range(1, 4);
           m.token = r.bytes((size_t)r.range(0, 8));
           m.opts.push_back({r1::O_URI_PATH, Bytes{'u', 'p'}});
@@ -282,14 +288,25 @@ struct C02 : Property {
         if (ws) { uint8_t mask[4] = {9, 8, 7, 6}; c = r1::ws_frame(c, true, mask, 2, (int)r.pick(std::vector<int>{0, 16, 64})); }
         stream.insert(stream.end(), c.begin(), c.end());
       }
-      int muts = (int)r.range(0, 8);
+      int muts = r.chance(0.3) ? 0 : (int)r.range(1, 8);
+      if (muts == 0) {
+        // a stream of well-formed messages only: a well-formed request at its end must be answered correctly on this very connection
+        r1::Msg m;
+        m.code = 1;
+        m.token = {0xF0, 0x0D, 0x57};
+        m.opts.push_back({r1::O_URI_PATH, Bytes{'c', 'a', 'n', 'a', 'r', 'y'}});
+        Bytes c = ws ? r1::encode_ws_msg(m) : r1::encode_tcp(m);
+        if (ws) { uint8_t mask[4] = {1, 2, 3, 4}; c = r1::ws_frame(c, true, mask, 2, 0); }
+        stream.insert(stream.end(), c.begin(), c.end());
+        stream_canary = ws ? 2 : 1;
+      }
       for (int i = 0; i < muts && !stream.empty(); i++) {
         size_t pos = (size_t)r.below(stream.size());
         if (r.chance(0.5)) stream[pos] = (uint8_t)r.below(256);
         else if (r.chance(0.5)) stream.insert(stream.begin() + (long)pos, (uint8_t)r.below(256));
         else stream.erase(stream.begin() + (long)pos);
       }
-      if (r.chance(0.3)) stream.resize((size_t)r.below(stream.size() + 1));
+      if (muts && r.chance(0.3)) stream.resize((size_t)r.below(stream.size() + 1));
       sfd = simk::raw_connect(2, World::node_addr(0, ws ? 8080 : 5683));
       std::deque<size_t> cuts;
       for (int i = 0; i < 100; i++) cuts.push_back((size_t)r.range(1, 200));
@@ -303,6 +320,44 @@ struct C02 : Property {
       simk::raw_stream_read(sfd, sink);
     });
     w.run_for_ms(1500);
+    if (stream_canary && !w.aborted) {
+      // find the 2.05 "canary" carrying our token among what the server wrote back
+      bool ok = false;
+      size_t pos = 0;
+      if (stream_canary == 2) {
+        std::string h(sink.begin(), sink.end());
+        size_t e = h.find("\r\n\r\n");
+        pos = e == std::string::npos ? sink.size() : e + 4;
+      }
+      while (pos < sink.size() && !ok) {
+        r1::Msg m;
+        if (stream_canary == 1) {
+          r1::Verdict v;
+          std::string why;
+          bool tb = false;
+          size_t n = r1::take_tcp(sink.data() + pos, sink.size() - pos, m, v, &why, 1u << 24, &tb);
+          if (!n) break;
+          pos += n;
+          if (v != r1::ACCEPT) continue;
+        } else {
+          if (sink.size() - pos < 2) break;
+          size_t l7 = sink[pos + 1] & 0x7f, hdr = 2;
+          uint64_t len = l7;
+          if (l7 == 126) { if (sink.size() - pos < 4) break; len = (uint64_t)sink[pos + 2] << 8 | sink[pos + 3]; hdr = 4; }
+          else if (l7 == 127) { if (sink.size() - pos < 10) break; len = 0; for (int i = 0; i < 8; i++) len = len << 8 | sink[pos + 2 + (size_t)i]; hdr = 10; }
+          if (sink.size() - pos < hdr + len) break;
+          const uint8_t *q = sink.data() + pos + hdr;
+          pos += hdr + (size_t)len;
+          std::string why;
+          if (len < 2) continue;
+          m.code = q[1];
+          if (r1::decode_rest(q + 2, (size_t)len - 2, q[0] & 15, m, &why, true) != r1::ACCEPT) continue;
+        }
+        if (m.code == 0x45 && m.token == Bytes{0xF0, 0x0D, 0x57} && m.payload == Bytes{'c', 'a', 'n', 'a', 'r', 'y'}) ok = true;
+      }
+      w.count("probe.wellformed_stream_with_canary");
+      if (!ok) res.violate("C02.canary_same_stream", stream_canary == 2 ? "ws" : "tcp", strfmt("a %s stream of %zu bytes made of well-formed messages only (incl. token-less signalling) ends with GET /canary, which was not answered with 2.05 on that connection", stream_canary == 2 ? "WebSocket" : "TCP", stream.size()));
+    }
     int responses_before_canary = cw.client_responses;
     // time passes: block-wise and session time-outs expire, with nothing hostile any more
     w.run_for_ms(400 * 1000);
